@@ -1081,6 +1081,7 @@ class ArgumentParser(ParserDeprecations, ActionsContainer, ArgumentLinking, argp
                             with_meta=None,
                             skip_validation=skip_validation,
                             skip_required=True,
+                            fail_no_subcommand=False,  # the command line may still name the subcommand
                         )
                 except (TypeError, KeyError, argparse.ArgumentError) as ex:
                     raise argument_error(
